@@ -235,33 +235,37 @@ def C13_no_fallback(which: int, proto: int) -> bool:
       drop_receiver(p)
 
 
+from crosshair.tracers import NoTracing  # noqa: E402
+
 SPELLINGS = [('False', False), ('false', False), ('no', False), ('off', False), ('0', False), (None, False),
              ('True', True), ('true', True), ('yes', True), ('on', True), ('1', True)]
 _CONF_DIR = None
 
 
-def C13_config(si: int, section_kind: int) -> bool:
+def C13_config(si: int, sj: int) -> bool:
   """
   pre: 0 <= si < len(SPELLINGS)
-  pre: 0 <= section_kind <= 1
+  pre: -1 <= sj < len(SPELLINGS)
   post: __return__
   """
-  # USE_INSECURE_UNPICKLER as the daemon reads it from carbon.conf: only an explicit true spelling switches
-  # the safe unpickler off
+  # USE_INSECURE_UNPICKLER as the daemon reads it from carbon.conf (carbon.conf:read_config, the [cache]
+  # section overlaid by the instance section when an instance is named): only an explicit true spelling
+  # in the section that wins switches the safe unpickler off; an instance may switch it back off.
   import carbon.conf as conf
-  from vp_lib.api import pick
-  global _CONF_DIR
-  text, want = pick(SPELLINGS, si)
-  section = ['cache', 'cache:b'][section_kind]
-  path = _CONF_FILES[(si, section_kind)]
-  st = conf.Settings()
-  st.update(conf.defaults)
-  st.readFrom(path, 'cache')
-  if section_kind == 1:
-    st.readFrom(path, 'cache:b')
+  si, sj = int(si), int(sj)
+  text, want = SPELLINGS[si]
+  if sj >= 0 and SPELLINGS[sj][0] is not None:
+    want = SPELLINGS[sj][1]
+  path = _CONF_FILES[(si, sj)]
+  options = {'config': path, 'instance': ('b' if sj >= 0 else None), 'pidfile': None, 'logdir': None}
+  with NoTracing():          # every input is concrete here; conf.py's dict subclass trips CrossHair's proxies otherwise
+    st = conf.read_config('carbon-cache', options, ROOT_DIR=_CONF_ROOT)
+    insecure = True if st.USE_INSECURE_UNPICKLER else False
   cover('read')
+  if sj >= 0:
+    cover('instance')
   u = cutil.get_unpickler(insecure=st.USE_INSECURE_UNPICKLER)
-  return (u is cutil.SafeUnpickler) == (not want) and bool(st.USE_INSECURE_UNPICKLER) == want
+  return (u is cutil.SafeUnpickler) == (not want) and insecure == want
 
 
 def _gen_conf():
@@ -270,19 +274,19 @@ def _gen_conf():
   d = scratch_dir('vp-c13-')
   out = {}
   for si, (text, want) in enumerate(SPELLINGS):
-    for kind in (0, 1):
-      path = os.path.join(d, 'carbon-%d-%d.conf' % (si, kind))
+    for sj in range(-1, len(SPELLINGS)):
+      path = os.path.join(d, 'carbon-%d-%d.conf' % (si, sj))
       line = '' if text is None else 'USE_INSECURE_UNPICKLER = %s\n' % text
       with open(path, 'w') as fh:
-        if kind == 0:
-          fh.write('[cache]\nMAX_CACHE_SIZE = inf\n%s' % line)
-        else:
-          fh.write('[cache]\nMAX_CACHE_SIZE = inf\n\n[cache:b]\n%s' % line)
-      out[(si, kind)] = path
-  return out
+        fh.write('[cache]\nMAX_CACHE_SIZE = inf\n%s' % line)
+        if sj >= 0:
+          t2 = SPELLINGS[sj][0]
+          fh.write('\n[cache:b]\nLINE_RECEIVER_PORT = 2103\n%s' % ('' if t2 is None else 'USE_INSECURE_UNPICKLER = %s\n' % t2))
+      out[(si, sj)] = path
+  return out, d
 
 
-_CONF_FILES = _gen_conf()
+_CONF_FILES, _CONF_ROOT = _gen_conf()
 
 
 def C13_default_setting() -> bool:
@@ -308,8 +312,8 @@ HARNESSES = [
     assumptions=['the safe unpickler is replaced by a stub that raises a symbolic choice of exception class or returns data; '
                  'the name `pickle` inside carbon.protocols is replaced by a proxy whose unpickling entry points are canaries '
                  '(pickle.dumps for the query response stays real)']),
-  H('C13_config', quick=dict(timeout=120), covers=['read'],
-    encodes=['carbon.conf:Settings.readFrom (type coercion of USE_INSECURE_UNPICKLER)', 'carbon.util:get_unpickler'],
+  H('C13_config', quick=dict(timeout=200), covers=['read', 'instance'],
+    encodes=['carbon.conf:read_config (program section overlaid by the instance section)', 'carbon.conf:Settings.readFrom (type coercion of USE_INSECURE_UNPICKLER)', 'carbon.util:get_unpickler'],
     assumptions=['carbon.conf files with the setting spelled %d ways (or absent) in [cache] or an instance section, symbolic index' % len(SPELLINGS)]),
   H('C13_default_setting', quick=dict(timeout=30), encodes=['carbon.conf:defaults']),
 ]
